@@ -242,7 +242,7 @@ theorem mem_sortStrs (l : List Str) (x : Str) : x ∈ sortStrs l ↔ x ∈ l := 
     exact ⟨(x, ()), (mem_sortByKey _ _).mpr (List.mem_map.mpr ⟨x, h, rfl⟩), rfl⟩
 
 theorem reads_eq (S : Schema V) (e : Elem V) (o : Obj V) (a : Args) (hx : Exclusive a) :
-    (setByObject S e o a).reads = candidates (effFields S e) a := by
+    (setByObject S e o a).reads = candidates S.fields a := by
   have hb : (!a.inc.isEmpty && !a.om.isEmpty) = false := by
     cases hb : (!a.inc.isEmpty && !a.om.isEmpty) with
     | false => rfl
@@ -250,100 +250,61 @@ theorem reads_eq (S : Schema V) (e : Elem V) (o : Obj V) (a : Args) (hx : Exclus
   have hx' : Exclusive { a with key := none } := hx
   simp only [setByObject, hb, Bool.false_eq_true, if_false, keyslicePairs_ok _ hx']
 
-/-- the candidate scan, when no non-field target is itself a source -/
-theorem mem_growAttrs (fields srcs : List Str) (ren : List (Str × Str)) (attrs : List Str)
-    (hsub : ∀ x ∈ fields, x ∈ attrs) (hinv : ∀ x ∈ attrs, x ∈ fields ∨ x ∈ srcs)
-    (hsrc : ∀ p ∈ ren, p.1 ∈ srcs) (hplain : ∀ p ∈ ren, p.2 ∈ fields ∨ p.2 ∉ srcs) (x : Str) :
-    x ∈ growAttrs attrs ren ↔ x ∈ attrs ∨ ∃ f, (x, f) ∈ ren ∧ f ∈ fields := by
-  induction ren generalizing attrs with
-  | nil => simp [growAttrs]
-  | cons p rest ih =>
-    obtain ⟨k, v⟩ := p
-    have hsrc' : ∀ p ∈ rest, p.1 ∈ srcs := fun p hp => hsrc p (List.mem_cons_of_mem _ hp)
-    have hplain' : ∀ p ∈ rest, p.2 ∈ fields ∨ p.2 ∉ srcs := fun p hp => hplain p (List.mem_cons_of_mem _ hp)
-    simp only [growAttrs]
-    by_cases hv : attrs.contains v = true
-    · have hvf : v ∈ fields := by
-        have hva : v ∈ attrs := by simpa using hv
-        rcases hplain (k, v) List.mem_cons_self with h | h
-        · exact h
-        · rcases hinv v hva with h' | h'
-          · exact h'
-          · exact absurd h' h
-      have hks : k ∈ srcs := hsrc (k, v) List.mem_cons_self
-      simp only [hv, if_true]
-      have hmem : ∀ y, y ∈ (if attrs.contains k = true then attrs else attrs ++ [k]) ↔ y ∈ attrs ∨ y = k := by
-        intro y
-        split
-        · rename_i hk
-          constructor
-          · exact Or.inl
-          · rintro (h | h)
-            · exact h
-            · subst h; simpa using hk
-        · simp [List.mem_append]
-      rw [ih _ (fun y hy => (hmem y).mpr (Or.inl (hsub y hy)))
-            (fun y hy => by
-              rcases (hmem y).mp hy with h | h
-              · exact hinv y h
-              · exact Or.inr (h ▸ hks)) hsrc' hplain', hmem]
-      constructor
-      · rintro ((h | h) | ⟨f, hm, hf⟩)
-        · exact Or.inl h
-        · exact Or.inr ⟨v, by simp [h], hvf⟩
-        · exact Or.inr ⟨f, List.mem_cons_of_mem _ hm, hf⟩
-      · rintro (h | ⟨f, hm, hf⟩)
-        · exact Or.inl (Or.inl h)
-        · rcases List.mem_cons.mp hm with h' | h'
-          · cases h'; exact Or.inl (Or.inr rfl)
-          · exact Or.inr ⟨f, h', hf⟩
-    · have hvf : v ∉ fields := fun h => hv (by simpa using hsub v h)
-      simp only [hv, Bool.false_eq_true, if_false]
-      rw [ih attrs hsub hinv hsrc' hplain']
-      constructor
-      · rintro (h | ⟨f, hm, hf⟩)
-        · exact Or.inl h
-        · exact Or.inr ⟨f, List.mem_cons_of_mem _ hm, hf⟩
-      · rintro (h | ⟨f, hm, hf⟩)
-        · exact Or.inl h
-        · rcases List.mem_cons.mp hm with h' | h'
-          · cases h'; exact absurd hf hvf
-          · exact Or.inr ⟨f, h', hf⟩
+/-- membership in a built dict = what `dict(pairs)[k]` returns -/
+theorem mem_dictOf_iff {β : Type} (ps : List (Str × β)) (k : Str) (v : β) :
+    (k, v) ∈ dictOf ps ↔ dictGet ps k = some v := by
+  have hn := keys_dictOf_nodup ps
+  constructor
+  · intro h
+    rw [← lookup_dictOf, lookup_eq_dictGet_of_nodup _ hn]
+    exact dictGet_of_nodup _ hn k v h
+  · intro h
+    rw [← lookup_dictOf, lookup_eq_dictGet_of_nodup _ hn] at h
+    exact dictGet_mem _ k v h
 
-/-- the full statement of the third clause of the property -/
+/-- the candidate attributes before `omit`: field names, and names the renaming maps to a field -/
+theorem mem_renAttrs (fields : List Str) (ren : List (Str × Str)) (x : Str) :
+    x ∈ renAttrs fields ren ↔ x ∈ fields ∨ ∃ f, dictGet ren x = some f ∧ f ∈ fields := by
+  unfold renAttrs
+  simp only [List.mem_append, List.mem_map, List.mem_filter, Bool.and_eq_true, Bool.not_eq_true']
+  constructor
+  · rintro (h | ⟨⟨k, v⟩, ⟨hm, hv, _⟩, rfl⟩)
+    · exact Or.inl h
+    · exact Or.inr ⟨v, (mem_dictOf_iff _ _ _).mp hm, by simpa using hv⟩
+  · rintro (h | ⟨f, hd, hf⟩)
+    · exact Or.inl h
+    · by_cases hx : x ∈ fields
+      · exact Or.inl hx
+      · exact Or.inr ⟨(x, f), ⟨(mem_dictOf_iff _ _ _).mpr hd, by simpa using hf, by simpa using hx⟩, rfl⟩
+
+/-- **set_by_object_reads** (full since fix 2460dd6) — the attributes looked at on the object are
+    exactly the declared field names and the names the renaming (as a mapping) sends to a declared
+    field, minus the omitted ones; for Dict and SparseDict alike (fix 29e8575). -/
+theorem set_by_object_reads (S : Schema V) (e : Elem V) (o : Obj V) (a : Args)
+    (hx : Exclusive a) (x : Str) :
+    x ∈ (setByObject S e o a).reads ↔ readSet S.fields a x := by
+  rw [reads_eq S e o a hx, candidates, mem_sortStrs, List.mem_filter, mem_renAttrs]
+  unfold readSet renameTo
+  simp
+
+/-- the third clause of the property, as a closed statement -/
 def C20_Full : Prop :=
   ∀ (S : Schema Unit) (e : Elem Unit) (o : Obj Unit) (a : Args), Exclusive a →
     ∀ x, x ∈ (setByObject S e o a).reads ↔ readSet S.fields a x
 
-/-- **set_by_object_reads** (partial: `PlainRename`, see KF-C20-a) — the attributes looked at on
-    the object are exactly the declared field names and the names the renaming maps to a declared
-    field, minus the omitted ones. -/
-theorem set_by_object_reads_partial (S : Schema V) (e : Elem V) (o : Obj V) (a : Args)
-    (hx : Exclusive a) (hp : PlainRename (effFields S e) a.ren) (x : Str) :
-    x ∈ (setByObject S e o a).reads ↔ readSet (effFields S e) a x := by
-  rw [reads_eq S e o a hx, candidates, mem_sortStrs, List.mem_filter,
-    mem_growAttrs (effFields S e) (a.ren.map (·.1)) a.ren (effFields S e) (fun _ h => h) (fun _ h => Or.inl h)
-      (fun p hp' => List.mem_map_of_mem (f := (·.1)) hp') hp.2]
-  unfold readSet renameTo
-  have hmap : (∃ f, (x, f) ∈ a.ren ∧ f ∈ effFields S e) ↔ ∃ f, dictGet a.ren x = some f ∧ f ∈ effFields S e := by
-    constructor
-    · rintro ⟨f, hm, hf⟩; exact ⟨f, dictGet_of_nodup a.ren hp.1 x f hm, hf⟩
-    · rintro ⟨f, hd, hf⟩; exact ⟨f, dictGet_mem a.ren x f hd, hf⟩
-  rw [hmap]
-  simp
+theorem C20_full_holds : C20_Full := fun S e o a hx x => set_by_object_reads S e o a hx x
 
-/-- KF-C20-a: with rename `[(x, a), (y, x)]` and the single field `a`, attribute `y` is looked at
-    although it maps to `x`, which is not a field. -/
-theorem C20_full_fails : ¬ C20_Full := by
-  intro h
-  have := (h { fields := ["a".toList], blank := (), setF := fun _ _ => () } [("a".toList, ())] []
-    { ren := [("x".toList, "a".toList), ("y".toList, "x".toList)] } (Or.inl rfl) "y".toList).mp
-    (by decide)
-  revert this
-  unfold readSet renameTo
+/-- the former witness of KF-C20-a: with rename `[(x, a), (y, x)]` and the single field `a`, only
+    `a` and `x` are looked at; `y` maps to `x`, which is not a field -/
+example :
+    (setByObject (V := Unit) { fields := ["a".toList], blank := (), setF := fun _ _ => () } [("a".toList, ())] []
+      { ren := [("x".toList, "a".toList), ("y".toList, "x".toList)] }).reads = ["a".toList, "x".toList] := by
   decide
 
-example : PlainRename ["a".toList, "b".toList] [("x".toList, "a".toList), ("b".toList, "q".toList)] := by
+/-- the former witness of KF-C20-b: a fresh SparseDict with the declared field `a` looks at `a` -/
+example :
+    (setByObject (V := Unit) { fields := ["a".toList], blank := (), setF := fun _ _ => (), sparse := true } [] [] {}).reads
+      = ["a".toList] := by
   decide
 
 /-! ### write to an object, read back with the inverse renaming -/
@@ -385,8 +346,7 @@ def finalOf (S : Schema V) (o : Obj V) (a : Args) : List (Str × V) :=
   dictOf (((readable o (candidates S.fields a)).filterMap
     (fun p => (outKey { a with key := none } p.1).map (·, p.2))).filter fun p => S.fields.contains p.1)
 
-theorem setByObject_ok (S : Schema V) (e : Elem V) (o : Obj V) (a : Args) (hx : Exclusive a)
-    (hs : S.sparse = false) :
+theorem setByObject_ok (S : Schema V) (e : Elem V) (o : Obj V) (a : Args) (hx : Exclusive a) :
     setByObject S e o a =
       ⟨candidates S.fields a, (dictSetValue S (finalOf S o a)).1, (dictSetValue S (finalOf S o a)).2⟩ := by
   have hb : (!a.inc.isEmpty && !a.om.isEmpty) = false := by
@@ -394,7 +354,7 @@ theorem setByObject_ok (S : Schema V) (e : Elem V) (o : Obj V) (a : Args) (hx : 
     | false => rfl
     | true => exact absurd hx ((not_exclusive_iff a).mpr hb)
   have hx' : Exclusive { a with key := none } := hx
-  simp only [setByObject, effFields, hs, hb, Bool.false_eq_true, if_false, keyslicePairs_ok _ hx', finalOf]
+  simp only [setByObject, hb, Bool.false_eq_true, if_false, keyslicePairs_ok _ hx', finalOf]
 
 /-- which pairs `Dict.set` receives for a key: values of readable candidate attributes landing on it -/
 theorem finalOf_lookup_mem (S : Schema V) (o : Obj V) (a : Args) (n : Str) (hn : n ∈ S.fields) (w : V) :
@@ -423,33 +383,26 @@ theorem dictSetValue_nonstrict (S : Schema V) (final : List (Str × V)) (hpol : 
 
 /-! ### what set_by_object stores -/
 
-theorem growAttrs_nodup (attrs : List Str) (ren : List (Str × Str)) (h : attrs.Nodup) : (growAttrs attrs ren).Nodup := by
-  induction ren generalizing attrs with
-  | nil => simpa [growAttrs]
-  | cons p rest ih =>
-    obtain ⟨k, v⟩ := p
-    simp only [growAttrs]
-    split
-    · apply ih
-      split
-      · exact h
-      · rename_i hk
-        rw [List.nodup_append]
-        refine ⟨h, by simp, ?_⟩
-        intro a ha b hb
-        simp at hb
-        subst hb
-        intro hab
-        subst hab
-        exact hk (by simpa using ha)
-    · exact ih attrs h
+theorem renAttrs_nodup (fields : List Str) (ren : List (Str × Str)) (h : fields.Nodup) : (renAttrs fields ren).Nodup := by
+  unfold renAttrs
+  rw [List.nodup_append]
+  refine ⟨h, ?_, ?_⟩
+  · have hk := keys_dictOf_nodup ren
+    unfold keys at hk
+    exact List.Nodup.sublist (List.Sublist.map _ List.filter_sublist) hk
+  · intro a ha b hb hab
+    subst hab
+    obtain ⟨p, hp, rfl⟩ := List.mem_map.mp hb
+    simp only [List.mem_filter, Bool.and_eq_true, Bool.not_eq_true'] at hp
+    have : p.1 ∉ fields := by simpa using hp.2.2
+    exact this ha
 
 theorem candidates_sorted (fields : List Str) (a : Args) (hf : fields.Nodup) :
     (candidates fields a).Pairwise (fun x y => strLt x y = true) := by
   unfold candidates sortStrs
-  have hn : ((growAttrs fields a.ren).filter fun x => !a.om.contains x).Nodup :=
-    (growAttrs_nodup fields a.ren hf).filter _
-  have hs := sorted_sortByKey (((growAttrs fields a.ren).filter fun x => !a.om.contains x).map fun s => (s, ()))
+  have hn : ((renAttrs fields a.ren).filter fun x => !a.om.contains x).Nodup :=
+    (renAttrs_nodup fields a.ren hf).filter _
+  have hs := sorted_sortByKey (((renAttrs fields a.ren).filter fun x => !a.om.contains x).map fun s => (s, ()))
     (by simpa [keys, List.map_map, Function.comp_def] using hn)
   unfold SortedKeys at hs
   exact List.Pairwise.map _ (fun _ _ h => h) hs
@@ -502,7 +455,7 @@ theorem set_by_object_values (S : Schema V) (e : Elem V) (o : Obj V) (a : Args) 
                                                               | some v => S.setF f v
                                                               | none => S.blank)) ∧
       ∀ f ∈ S.fields, ∀ v, val f = some v ↔ ∃ x, IsAttrWinner S o a f x v := by
-  rw [setByObject_ok S e o a hx hs, dictSetValue_nonstrict S _ hpol hs]
+  rw [setByObject_ok S e o a hx, dictSetValue_nonstrict S _ hpol hs]
   refine ⟨rfl, fun f => lookup (finalOf S o a) f, rfl, ?_⟩
   intro f hfm v
   show lookup (finalOf S o a) f = some v ↔ _
@@ -517,25 +470,18 @@ theorem set_by_object_values (S : Schema V) (e : Elem V) (o : Obj V) (a : Args) 
   · rintro ⟨x, hc, hg, hk, hmax⟩
     exact ⟨x, ⟨hc, hg⟩, hk, fun x' v' h' hk' => hmax x' v' h'.1 h'.2 hk'⟩
 
-/-- **object_roundtrip** — write an element to an object with `update_object(include/omit,
-    rename)` and read the object back into a blank element with the inverse renaming: every
-    selected field (renamed, or selected by include/omit) gets `member.set(old value)`, every
-    other field stays unset.  Hypotheses: identity key function; the renaming is injective, renames
-    declared fields to names that are not fields; the object had no readable attribute called like
-    a field or a rename target; non-strict policy (strict demands all fields). -/
-theorem object_roundtrip (S : Schema V) (e : Elem V) (o : Obj V) (a : Args)
-    (he : keys e = S.fields) (hf : S.fields.Nodup) (hkey : a.key = none) (hx : Exclusive a)
+/-- core of the round trip: after `update_object`, the dict that `set_by_object` with the inverse
+    renaming hands to `Dict.set` holds, for each member of the source element, its value if it was
+    selected and nothing otherwise -/
+theorem object_roundtrip_final (S : Schema V) (e : Elem V) (o : Obj V) (a : Args)
+    (hne : (keys e).Nodup) (hmemF : ∀ p ∈ e, p.1 ∈ S.fields) (hkey : a.key = none) (hx : Exclusive a)
     (hsrcN : (a.ren.map (·.1)).Nodup) (htgtN : (a.ren.map (·.2)).Nodup)
     (hsrcF : ∀ p ∈ a.ren, p.1 ∈ S.fields) (htgtF : ∀ p ∈ a.ren, p.2 ∉ S.fields)
-    (hfresh : ∀ x, (x ∈ S.fields ∨ x ∈ a.ren.map (·.2)) → o.get x = none)
-    (hpol : S.policy ≠ .strict) (hs : S.sparse = false) :
+    (hfresh : ∀ x, (x ∈ S.fields ∨ x ∈ a.ren.map (·.2)) → o.get x = none) :
     ∃ o', updateObject e o a = .ok o' ∧
-      (setByObject S (S.fields.map (·, S.blank)) o' (inverseArgs a)).exc = none ∧
-      (setByObject S (S.fields.map (·, S.blank)) o' (inverseArgs a)).elem =
-        e.map (fun p => (p.1, if (outKey a p.1).isSome then S.setF p.1 p.2 else S.blank)) := by
-  have hne : (keys e).Nodup := he ▸ hf
+      ∀ n v, (n, v) ∈ e →
+        lookup (finalOf S o' (inverseArgs a)) n = if (outKey a n).isSome then some v else none := by
   obtain ⟨m, hm, hmn, hspec⟩ := slice_spec e a hne hx
-  have hmemF : ∀ p ∈ e, p.1 ∈ S.fields := fun p hp => he ▸ List.mem_map_of_mem (f := (·.1)) hp
   -- the destination function, with the identity key function
   have hout : ∀ n, outKey a n = (match dictGet a.ren n with
       | some t => some t | none => if selected a n then some n else none) := by
@@ -598,24 +544,16 @@ theorem object_roundtrip (S : Schema V) (e : Elem V) (o : Obj V) (a : Args)
   -- candidates
   have hcand : ∀ x, x ∈ candidates S.fields a2 ↔ x ∈ S.fields ∨ x ∈ a.ren.map (·.2) := by
     intro x
-    rw [candidates, ha2r, mem_sortStrs, List.mem_filter,
-      mem_growAttrs S.fields (a.ren.map (·.2)) (swapPairs a.ren) S.fields (fun _ h => h)
-        (fun _ h => Or.inl h)
-        (fun p hp => by
-          obtain ⟨p1, p2⟩ := p
-          exact List.mem_map_of_mem (f := (·.2)) ((mem_swapPairs _ _ _).mp hp))
-        (fun p hp => by
-          obtain ⟨p1, p2⟩ := p
-          exact Or.inl (hsrcF _ ((mem_swapPairs _ _ _).mp hp)))]
+    rw [candidates, ha2r, mem_sortStrs, List.mem_filter, mem_renAttrs]
     simp only [ha2o, List.contains_nil, Bool.not_false, and_true]
     constructor
-    · rintro (h | ⟨f, hm', _⟩)
+    · rintro (h | ⟨f, hd, _⟩)
       · exact Or.inl h
-      · exact Or.inr (List.mem_map_of_mem (f := (·.2)) ((mem_swapPairs _ _ _).mp hm'))
+      · exact Or.inr (List.mem_map_of_mem (f := (·.2)) ((mem_swapPairs _ _ _).mp (dictGet_mem _ _ _ hd)))
     · rintro (h | h)
       · exact Or.inl h
       · obtain ⟨⟨k, t⟩, hkt, rfl⟩ := List.mem_map.mp h
-        exact Or.inr ⟨k, (mem_swapPairs _ _ _).mpr hkt, hsrcF _ hkt⟩
+        exact Or.inr ⟨k, dictGet_of_nodup _ hswapN t k ((mem_swapPairs _ _ _).mpr hkt), hsrcF _ hkt⟩
   -- what a pair of `final` with a field key can be
   have hfinal : ∀ n v, (n, v) ∈ e → ∀ x w,
       (x ∈ S.fields ∨ x ∈ a.ren.map (·.2)) → o'.get x = some w →
@@ -706,7 +644,28 @@ theorem object_roundtrip (S : Schema V) (e : Elem V) (o : Obj V) (a : Args)
       intro w hw
       obtain ⟨x, hxc, hg, hox⟩ := (finalOf_lookup_mem S o' a2 n (hmemF _ hp) w).mp hw
       exact hmoved (hfinal n v hp x w ((hcand x).mp hxc) hg hox).2
-  rw [setByObject_ok S _ o' a2 hx2 hs, dictSetValue_nonstrict S _ hpol hs]
+  exact hLk
+
+/-- **object_roundtrip** — write an element to an object with `update_object(include/omit,
+    rename)` and read the object back into a blank element with the inverse renaming: every
+    selected field (renamed, or selected by include/omit) gets `member.set(old value)`, every
+    other field stays unset.  Hypotheses: identity key function; the renaming is injective, renames
+    declared fields to names that are not fields; the object had no readable attribute called like
+    a field or a rename target; non-strict policy (strict demands all fields). -/
+theorem object_roundtrip (S : Schema V) (e : Elem V) (o : Obj V) (a : Args)
+    (he : keys e = S.fields) (hf : S.fields.Nodup) (hkey : a.key = none) (hx : Exclusive a)
+    (hsrcN : (a.ren.map (·.1)).Nodup) (htgtN : (a.ren.map (·.2)).Nodup)
+    (hsrcF : ∀ p ∈ a.ren, p.1 ∈ S.fields) (htgtF : ∀ p ∈ a.ren, p.2 ∉ S.fields)
+    (hfresh : ∀ x, (x ∈ S.fields ∨ x ∈ a.ren.map (·.2)) → o.get x = none)
+    (hpol : S.policy ≠ .strict) (hs : S.sparse = false) :
+    ∃ o', updateObject e o a = .ok o' ∧
+      (setByObject S (S.fields.map (·, S.blank)) o' (inverseArgs a)).exc = none ∧
+      (setByObject S (S.fields.map (·, S.blank)) o' (inverseArgs a)).elem =
+        e.map (fun p => (p.1, if (outKey a p.1).isSome then S.setF p.1 p.2 else S.blank)) := by
+  obtain ⟨o', hupd, hLk⟩ := object_roundtrip_final S e o a (he ▸ hf)
+    (fun p hp => he ▸ List.mem_map_of_mem (f := (·.1)) hp) hkey hx hsrcN htgtN hsrcF htgtF hfresh
+  refine ⟨o', hupd, ?_⟩
+  rw [setByObject_ok S _ o' (inverseArgs a) (Or.inl rfl), dictSetValue_nonstrict S _ hpol hs]
   refine ⟨rfl, ?_⟩
   refine (congrArg (List.map _) he.symm).trans ?_
   simp only [keys, List.map_map]
@@ -714,6 +673,41 @@ theorem object_roundtrip (S : Schema V) (e : Elem V) (o : Obj V) (a : Args)
   intro p hp
   obtain ⟨n, v⟩ := p
   simp only [Function.comp, hLk n v hp]
+  by_cases hmoved : (outKey a n).isSome = true <;> simp [hmoved]
+
+theorem lookup_map_setF (S : Schema V) (l : List (Str × V)) (n : Str) :
+    lookup (l.map fun p => (p.1, S.setF p.1 p.2)) n = (lookup l n).map (S.setF n) := by
+  induction l with
+  | nil => rfl
+  | cons p rest ih =>
+    obtain ⟨k, x⟩ := p
+    simp only [List.map_cons, lookup]
+    by_cases h : k = n
+    · subst h; simp
+    · simp [h, ih]
+
+/-- **object_roundtrip** for a SparseDict (since fix 29e8575): the members of the source element
+    that were selected come back with `member.set(old value)`; no other member is created. -/
+theorem object_roundtrip_sparse (S : Schema V) (e : Elem V) (o : Obj V) (a : Args)
+    (hne : (keys e).Nodup) (hmemF : ∀ p ∈ e, p.1 ∈ S.fields) (hkey : a.key = none) (hx : Exclusive a)
+    (hsrcN : (a.ren.map (·.1)).Nodup) (htgtN : (a.ren.map (·.2)).Nodup)
+    (hsrcF : ∀ p ∈ a.ren, p.1 ∈ S.fields) (htgtF : ∀ p ∈ a.ren, p.2 ∉ S.fields)
+    (hfresh : ∀ x, (x ∈ S.fields ∨ x ∈ a.ren.map (·.2)) → o.get x = none)
+    (hpol : S.policy ≠ .strict) (hs : S.sparse = true) :
+    ∃ o', updateObject e o a = .ok o' ∧
+      (setByObject S [] o' (inverseArgs a)).exc = none ∧
+      ∀ n v, (n, v) ∈ e →
+        lookup (setByObject S [] o' (inverseArgs a)).elem n =
+          if (outKey a n).isSome then some (S.setF n v) else none := by
+  obtain ⟨o', hupd, hLk⟩ := object_roundtrip_final S e o a hne hmemF hkey hx hsrcN htgtN hsrcF htgtF hfresh
+  refine ⟨o', hupd, ?_⟩
+  have hpol' : (S.policy == Policy.strict) = false := by
+    cases hp : S.policy <;> simp_all
+  rw [setByObject_ok S _ o' (inverseArgs a) (Or.inl rfl)]
+  simp only [dictSetValue, hs, if_true, hpol', Bool.false_and, Bool.false_eq_true, if_false]
+  refine ⟨trivial, ?_⟩
+  intro n v hnv
+  rw [lookup_map_setF, hLk n v hnv]
   by_cases hmoved : (outKey a n).isSome = true <;> simp [hmoved]
 
 example : swapPairs [("b".toList, "bee".toList)] = [("bee".toList, "b".toList)] := rfl
@@ -741,22 +735,5 @@ example :
       simp only [Obj.get, h', if_false])
     (by decide) rfl
   exact ⟨o', h1, by rw [h3]; rfl⟩
-
-/-! ### SparseDict -/
-
-/-- the clause "reads exactly the attributes that map to declared fields" with *declared* fields,
-    for every Dict subtype -/
-def C20_Full_sparse : Prop :=
-  ∀ (S : Schema Unit) (e : Elem Unit) (o : Obj Unit) (a : Args), Exclusive a → PlainRename S.fields a.ren →
-    ∀ x, x ∈ (setByObject S e o a).reads ↔ readSet S.fields a x
-
-/-- KF-C20-b: a SparseDict takes `set(self.keys())` — the members that exist — for its fields, so
-    a fresh SparseDict with the declared field `a` reads nothing from the object -/
-theorem C20_sparse_fails : ¬ C20_Full_sparse := by
-  intro h
-  have := (h { fields := ["a".toList], blank := (), setF := fun _ _ => (), sparse := true } [] [] {}
-    (Or.inl rfl) (by decide) "a".toList).mpr (by unfold readSet renameTo; decide)
-  revert this
-  decide
 
 end Flatland.C20.Proofs
